@@ -44,6 +44,32 @@ def main():
         corpus = [(lpgen.parse_lp_text(rp["lp"]), [{a: b for a, b in rp.get("config", {}).items() if a != "history"}])]
         lps = []
     lps = [c[0] for c in corpus] + lps
+    # branch-and-bound style warm starts: the case LP has one column fixed at a value inside its original bounds; the history relaxes the
+    # column to the original bounds, solves (unreported), fixes it again and solves: every reported answer is an answer about the case LP,
+    # reached from a basis in which the fixed column is often basic and outside its collapsed bounds
+    fixed_hist = {}
+    if not ck.args.replay:
+        from fractions import Fraction as F_
+        for _ in range(40 if ck.tier == "quick" else 600):
+            p0 = lpgen.gen_lp(r, nmax)
+            if p0.n < 1:
+                continue
+            j = r.randrange(p0.n)
+            o_, lo_, up_ = p0.cols[j]
+            basev = lo_ if lo_ is not None else (up_ if up_ is not None else F_(0))
+            v = basev + (r.choice([0, 1, 2, 3, 7]) if lo_ is not None else -r.choice([0, 1, 2, 3, 7]))
+            if up_ is not None and v > up_:
+                v = up_
+            cols = list(p0.cols)
+            cols[j] = (o_, v, v)
+            q = lpgen.LP(p0.maxi, p0.offset, cols, p0.rows, "fixed-column:" + p0.family)
+            tk = lambda x, neg: ("-inf" if neg else "inf") if x is None else lpgen.qs(x)
+            pre = [r.choice(["simplifier=0", "simplifier=0", "simplifier=1"]), "algorithm=%d" % r.randrange(2), "representation=%d" % r.randrange(3)]
+            if r.random() < 0.5:
+                pre.append("ensureray=1")
+            fixed_hist[len(lps)] = pre + ["CHB:%d:%s:%s" % (j, tk(lo_, True), tk(up_, False)), "OPTQ", "CHB:%d:%s:%s" % (j, lpgen.qs(v), lpgen.qs(v)), "OPT",
+                                          "CLB", "OPT"]
+            lps.append(q)
     cfgs = {}
     for k in range(len(lps)):
         cfgs[k] = [{}, {"ensureray": 1}]
@@ -54,6 +80,8 @@ def main():
     # histories: several solves of one LP on one object with parameter changes in between; every answer is judged as for a
     # single solve and every optimize() call's control trace is replayed through the Coq model of the solve driver
     hists = {k: ([] if ck.args.replay else [sc.gen_history(r) for _ in range(2 if k % 2 == 0 else 1)]) for k in range(len(lps))}
+    for k_, h_ in fixed_hist.items():
+        hists[k_] = [h_]
     if ck.args.replay and (rp.get("history") or rp.get("config", {}).get("history")):
         hh = rp.get("history") or rp["config"]["history"]
         hists[0] = [hh.split() if isinstance(hh, str) else hh]
